@@ -152,9 +152,10 @@ def _gen_call(r, pool, cfg, p_fault, focus=None):
     forced = None
     if focus is not None:
         # swarm: this history keeps coming back to one algorithm and/or one container
-        if focus.get("pool") is not None and r.random() < 0.5:
+        pf = 0.85 if focus.get("storm") else 0.5
+        if focus.get("pool") is not None and r.random() < pf:
             c = next(x for x in pool if x["id"] == focus["pool"])
-        if focus.get("algo") is not None and r.random() < 0.5:
+        if focus.get("algo") is not None and r.random() < pf:
             forced = focus["algo"]
             fam = "part" if forced in PART_ALGOS else "pack" if forced in PACK_ALGOS else "cover" if forced in COVER_ALGOS else "gen"
     vals = c["values"]
@@ -191,6 +192,10 @@ def _gen_call(r, pool, cfg, p_fault, focus=None):
                                               "c": r.choice([0, 1, tot // max(k, 1), tot, tot + 1, -1, r.randint(0, max(1, tot))])}
             if r.random() < 0.25:
                 op["kwargs"]["copies"] = r.choice([1, 2, 2, 0])
+            elif r.random() < 0.2:
+                op["kwargs"]["copies"] = [r.choice([0, 1, 1, 2]) for _ in range(n)]       # a caller-owned list: must come back untouched
+            if r.random() < 0.2:
+                op["kwargs"]["weights"] = [r.choice([1, 2, 3, 0.5])] * k                  # equal weights (caller-owned list)
         if algo == "multifit" and r.random() < 0.3:
             op["kwargs"]["iterations"] = r.choice([1, 3, 10, 20])
         op.update({"fn": "partition", "algo": algo, "param": k})
@@ -224,17 +229,25 @@ def _gen_call(r, pool, cfg, p_fault, focus=None):
             kinds += ["solver", "solver", "solver"]
         kind = r.choice(kinds)
         if kind == "valueof":
-            op["fault"] = {"kind": "valueof", "frac": round(r.random(), 4)}
+            # where inside the call the value function fails: anywhere / late / at its very last evaluation / at once
+            # (a late failure leaves the most work-in-progress behind)
+            where = r.choices(["any", "late", "last", "first"], weights=[40, 30, 20, 10])[0]
+            frac = {"any": round(r.random(), 4), "late": round(0.9 + 0.0999 * r.random(), 4), "last": 0.99999, "first": 0.0}[where]
+            op["fault"] = {"kind": "valueof", "frac": frac}
         elif kind == "clock":
             op["fault"] = {"kind": "clock", "cut": r.choice([1, 1, 2, 3, 5, 8, 13, 21, 40])}
         else:
-            mode = r.choice(["stub_status", "real_then_status", "raise", "sim_timeout"])
+            mode = r.choice(["stub_status", "real_then_status", "raise", "sim_timeout", "noise"])
             f = {"kind": "solver", "mode": mode}
+            if mode == "noise":
+                # not a failed call: the solver proves optimality and returns the integers only up to its tolerance
+                f = {"kind": "solver", "mode": "real", "x_noise": {"seed": r.getrandbits(31), "eps": r.choice([1e-9, 1e-7, 4e-7])}}
+                mode = "real"
             if mode in ("stub_status", "real_then_status"):
                 f["status"] = r.choice(["FEASIBLE", "NO_SOLUTION_FOUND", "ERROR", "INFEASIBLE", "UNBOUNDED", "INT_INFEASIBLE", "CUTOFF", "LOADED", "OTHER", "INF_OR_UNBD", "TRUNCATED"])
             elif mode == "raise":
                 f["exc"] = r.choice(["InterfacingError", "MemoryError", "InjectedFault"])
-            else:
+            elif mode == "sim_timeout":
                 f["sim_duration"] = 10.0
                 f["late"] = r.choice(["FEASIBLE", "NO_SOLUTION_FOUND"])
                 op["kwargs"]["time_limit"] = r.choice([1, 5, 20])
@@ -248,6 +261,44 @@ def _gen_edit(r, pool):
     kind = r.choice(["set", "set", "set", "append", "pop"])
     e = {"op": "edit", "pool": c["id"], "kind": kind, "pos": r.randrange(16), "value": r.choice([0, 1, 5, 17, 40, 123, 300])}
     return e
+
+
+def _direct(r, op, p_direct):
+    """Variant: the caller calls the algorithm function itself, with a bins-manager object that it owns and
+    RE-USES for every direct call on that container (README: 'Adding new algorithms' / the algorithm docstrings)."""
+    if op.get("fn") in ("partition", "pack") and op.get("algo") != "ilp" and r.random() < p_direct:
+        op["direct"] = r.choice(["contents", "sums"])
+        op.pop("out", None)
+        op["out"] = "raw"
+    return op
+
+
+def _gen_retry(r, pool, failed):
+    """The caller reacts to a failed call the way callers do: the same call again without the fault, often with the
+    size parameter changed (other bin size / other number of bins)."""
+    op = copy.deepcopy(failed)
+    op["fault"] = None
+    if op.get("fn") == "generator":
+        return op
+    if r.random() < 0.6:
+        c = next(x for x in pool if x["id"] == op["pool"])
+        vals = c["values"]
+        mx = max(vals) if vals else 1
+        if op["fn"] == "pack":
+            cands = [mx, mx + 1, mx + 2, mx + mx // 2 + 1, 2 * mx, 2 * mx + 1, sum(vals) or 1] + ([c["binsize_hint"]] if c.get("binsize_hint") else [])
+            cands = [b for b in cands if b != op["param"]]
+            op["param"] = r.choice(cands)
+        elif op.get("algo") not in ("cbldm",):
+            op["param"] = max(1, op["param"] + r.choice([-1, 1, 1]))
+    return op
+
+
+def _gen_scribble(r, ops):
+    """The caller changes, in place, an object that an earlier call RETURNED to it (it owns that object)."""
+    cands = [i for i, o in enumerate(ops) if o["op"] == "call" and o.get("fn") != "generator"]
+    if not cands:
+        return None
+    return {"op": "scribble", "of": r.choice(cands[-6:]), "how": r.choice(["append", "clear", "overwrite", "reverse"])}
 
 
 def gen_plan(seed, tier):
@@ -265,20 +316,36 @@ def gen_plan(seed, tier):
         if focus["algo"] == "ilp" and r.random() < 0.7:
             focus["algo"] = r.choice(["cg", "dp", "snp", "rnp", "ckk", "cbldm"])
     p_edit = r.choice([0.0, 0.0, 0.08, 0.2])
+    p_scribble = r.choice([0.0, 0.0, 0.1, 0.25])
+    p_direct = r.choice([0.0, 0.0, 0.3, 0.7])
+    p_retry = r.choice([0.0, 0.3, 0.6])
+    if r.random() < 0.25:
+        # swarm mode "retry storm": one algorithm on one container, failing often (and late), the caller retrying with
+        # varied size parameters - the pattern that exposes work-in-progress state a failed call leaves behind
+        focus = {"algo": r.choice([a for a in PART_ALGOS if a != "ilp"] + PACK_ALGOS + PACK_ALGOS + COVER_ALGOS), "pool": r.choice(pool)["id"], "storm": True}
+        p_fault, p_retry, p_repeat = 0.5, 0.9, 0.1
     for i in range(nops):
+        if ops and ops[-1]["op"] == "call" and ops[-1].get("fault") and ops[-1]["fault"]["kind"] != "abandon" and r.random() < p_retry:
+            ops.append(_gen_retry(r, pool, ops[-1]))
+            continue
         if ops and r.random() < p_edit:
             ops.append(_gen_edit(r, pool))
             continue
+        if ops and r.random() < p_scribble:
+            sc = _gen_scribble(r, ops)
+            if sc is not None:
+                ops.append(sc)
+                continue
         if ops and r.random() < p_repeat:
             j = r.randrange(len(ops))
             while ops[j]["op"] == "repeat":
                 j = ops[j]["of"]
-            if ops[j]["op"] == "edit":
-                ops.append(_gen_call(r, pool, cfg, p_fault, focus))
+            if ops[j]["op"] in ("edit", "scribble"):
+                ops.append(_direct(r, _gen_call(r, pool, cfg, p_fault, focus), p_direct))
             else:
                 ops.append({"op": "repeat", "of": j})
         else:
-            ops.append(_gen_call(r, pool, cfg, p_fault, focus))
+            ops.append(_direct(r, _gen_call(r, pool, cfg, p_fault, focus), p_direct))
     log = r.choice([None, None, None, None, None, "INFO", "DEBUG"])       # deployment configuration, the same for history and references
     return {"prop": "C15", "pool": pool, "ops": ops, "log": log}
 
@@ -386,7 +453,29 @@ class _Env:
         if cid in self.vmaps:
             self.pristine_vmaps[cid] = core.jdump(canon(self.vmaps[cid]))
 
-    def perform(self, op, k_valueof=None, measure=False):
+    def _owned_binner(self, cid, kind, valueof):
+        """The caller's own bins-manager for direct calls on container cid: created once, re-used for every later
+        direct call (its value function is an indirection, so that a per-call faulty valueof can be swapped in)."""
+        import prtpy
+        if not hasattr(self, "_binners"):
+            self._binners, self._vo = {}, {}
+        self._vo[cid] = valueof
+        key = (cid, kind)
+        if key not in self._binners:
+            cls = prtpy.BinnerKeepingContents if kind == "contents" else prtpy.BinnerKeepingSums
+            vo = self._vo
+            self._binners[key] = cls(lambda item, _cid=cid: vo[_cid](item))
+        return self._binners[key]
+
+    def apply_scribble(self, e):
+        """The caller changes, in place, the object an earlier call returned. -> names of input containers that changed
+        with it (only possible if the library handed back an alias of the caller's own container)."""
+        target = getattr(self, "results", {}).get(e["of"])
+        if target is not None:
+            _scribble(target, e["how"])
+        return self.mutated()
+
+    def perform(self, op, k_valueof=None, measure=False, idx=None):
         """Execute one call. -> record dict with canonical outcome."""
         import prtpy
         from prtpy import outputtypes as out
@@ -395,6 +484,7 @@ class _Env:
         form = self.forms[cid]
         fault = op.get("fault") or {}
         rec = {"fault_fired": None}
+        owned_kw = []          # (name, the list object handed to the call, pristine copy)
         valueof = None
         fv = None
         if form == "names":
@@ -422,9 +512,11 @@ class _Env:
                 if "switches" in okw:
                     lb, flb, h3, seen = okw["switches"]
                     kw.update(use_lower_bound=lb, use_fast_lower_bound=flb, use_heuristic_3=h3, use_set_of_seen_states=seen)
-                for key in ("partition_difference", "iterations", "time_limit", "copies"):
+                for key in ("partition_difference", "iterations", "time_limit", "copies", "weights"):
                     if key in okw:
-                        kw[key] = okw[key]
+                        kw[key] = list(okw[key]) if isinstance(okw[key], list) else okw[key]
+                        if isinstance(okw[key], list):
+                            owned_kw.append((key, kw[key], list(okw[key])))
                 if "constraint" in okw:
                     con = okw["constraint"]
                     kw["additional_constraints"] = {
@@ -436,12 +528,23 @@ class _Env:
                 if fault.get("kind") == "solver":
                     _solver.use({k: v for k, v in fault.items() if k != "kind"})
                 algo = self._algo(op["algo"])
-                otype = getattr(out, op["out"])
-                if op["fn"] == "partition":
+                if op.get("direct"):
+                    if isinstance(items, dict):
+                        names, vo = items.keys(), (valueof if valueof is not None else items.__getitem__)
+                    else:
+                        names, vo = items, (valueof if valueof is not None else (lambda item: item))
+                    val = algo(self._owned_binner(cid, op["direct"], vo), op["param"], names, **kw)
+                elif op["fn"] == "partition":
+                    otype = getattr(out, op["out"])
                     val = prtpy.partition(algorithm=algo, numbins=op["param"], items=items, valueof=valueof, outputtype=otype, **kw)
                 else:
+                    otype = getattr(out, op["out"])
                     val = prtpy.pack(algorithm=algo, binsize=op["param"], items=items, valueof=valueof, outputtype=otype, **kw)
                 outcome = {"value": canon(val)}
+                if idx is not None:
+                    if not hasattr(self, "results"):
+                        self.results = {}
+                    self.results[idx] = val
                 if op["algo"] == "ilp":
                     outcome["ilp_signature"] = self._ilp_signature(op, val, cid)
         except StepBudgetExceeded:
@@ -451,6 +554,7 @@ class _Env:
         finally:
             _solver.use({"mode": "real"})
         rec["outcome"] = outcome
+        rec["kwargs_mutated"] = [name for (name, obj, pristine) in owned_kw if obj != pristine or len(obj) != len(pristine)]
         rec["valueof_calls"] = fv.calls if fv is not None else None
         rec["valueof_fired"] = fv.fired if fv is not None else 0
         rec["clock_reads"] = self.clock.reads - reads0
@@ -506,6 +610,54 @@ class _Env:
         return {"objective_value": canon(refmodels.objective_value(objective, sums)), "nbins": len(sums), "total": canon(sum(sums))}
 
 
+def _scribble(obj, how, depth=0):
+    """In-place change of a returned object, the way a caller post-processes a result."""
+    import numpy as np
+    JUNK = -777
+    if depth > 3:
+        return
+    if isinstance(obj, np.ndarray):
+        if obj.size and obj.flags.writeable:
+            if how == "reverse":
+                obj[...] = obj[::-1].copy()
+            else:
+                obj.flat[0] = JUNK
+        return
+    if isinstance(obj, tuple):
+        for x in obj:
+            _scribble(x, how, depth + 1)
+        return
+    if hasattr(obj, "sums") and hasattr(obj, "lists"):
+        _scribble(obj.sums, how, depth + 1)
+        _scribble(obj.lists, how, depth + 1)
+        return
+    if isinstance(obj, list):
+        nested = [x for x in obj if isinstance(x, (list, np.ndarray))]
+        if nested:
+            if how == "reverse":
+                obj.reverse()
+            elif how == "append":
+                tgt = nested[0]
+                if isinstance(tgt, list):
+                    tgt.append(JUNK)
+            elif how == "clear":
+                tgt = nested[-1]
+                if isinstance(tgt, list):
+                    tgt.clear()
+            else:
+                for x in nested:
+                    _scribble(x, "overwrite", depth + 1)
+        else:
+            if how == "reverse":
+                obj.reverse()
+            elif how == "append":
+                obj.append(JUNK)
+            elif how == "clear":
+                obj.clear()
+            elif obj:
+                obj[0] = JUNK
+
+
 def _resolve(plan, idx):
     op = plan["ops"][idx]
     hops = 0
@@ -532,10 +684,16 @@ def _child_run(plan, indices, kmap, measure):
             applied = idx + 1
             out.append({"index": idx, "edit": True, "mutated": []})
             continue
+        if plan["ops"][idx]["op"] == "scribble":
+            aliased = env.apply_scribble(plan["ops"][idx])
+            out.append({"index": idx, "scribble": True, "mutated": [], "aliased_input": aliased})
+            if aliased:
+                break          # the returned object WAS the caller's container: the caller has now edited its own input
+            continue
         op = _resolve(plan, idx)
-        rec = env.perform(op, kmap.get(str(idx)), measure=measure)
+        rec = env.perform(op, kmap.get(str(idx)), measure=measure, idx=idx)
         rec["index"] = idx
-        rec["mutated"] = env.mutated()
+        rec["mutated"] = env.mutated() + ["kwarg:" + nm for nm in rec.get("kwargs_mutated", [])]
         out.append(rec)
         if rec["mutated"]:
             break
@@ -554,17 +712,20 @@ def _comparable(op, outcome):
 
 
 def _opkind(op):
-    if op["op"] == "edit":
-        return "edit"
+    if op["op"] in ("edit", "scribble"):
+        return op["op"]
     f = op.get("fault")
-    return op.get("algo", "?") + ("!" + f["kind"] if f else "")
+    return op.get("algo", "?") + ("^" if op.get("direct") else "") + ("!" + f["kind"] if f else "")
 
 
 def _valid_plan(plan):
     ids = {c["id"] for c in plan["pool"]}
     for i, op in enumerate(plan["ops"]):
         if op["op"] == "repeat":
-            if not (0 <= op["of"] < i) or plan["ops"][op["of"]]["op"] == "edit":
+            if not (0 <= op["of"] < i) or plan["ops"][op["of"]]["op"] in ("edit", "scribble"):
+                return False
+        elif op["op"] == "scribble":
+            if not (0 <= op["of"] < i) or plan["ops"][op["of"]]["op"] in ("edit", "scribble"):
                 return False
         elif op["pool"] not in ids:
             return False
@@ -604,6 +765,8 @@ def execute(plan, seed=0):
         epoch[i] = ne
         if ops[i]["op"] == "edit":
             ne += 1
+            continue
+        if ops[i]["op"] == "scribble":
             continue
         j = i
         while ops[j]["op"] == "repeat":
@@ -663,8 +826,26 @@ def execute(plan, seed=0):
             prev_algo, prev_pool, prev_form = None, ops[i]["pool"], _form(plan, ops[i]["pool"])
             shape.append("edit")
             continue
+        if rec.get("scribble"):
+            tr.add("scribble", i=i, op=ops[i], aliased_input=rec["aliased_input"])
+            res.probe("caller_changed_a_returned_object_in_place")
+            if rec["aliased_input"]:
+                res.probe("returned_object_aliases_callers_input_history_stops")
+                break
+            if prev_kind is not None:
+                res.cells.append("@pair:" + prev_kind + ">scribble")
+            prev_kind = "scribble"
+            prev_failed = False
+            prev_algo, prev_pool, prev_form = None, None, None
+            shape.append("scribble")
+            nontrivial = True
+            continue
         op = _resolve(plan, i)
         j = base_idx[i]
+        if op.get("direct"):
+            res.probe("direct_call_with_caller_owned_reused_binner")
+        if any(isinstance(v, list) for k_, v in op.get("kwargs", {}).items() if k_ in ("copies", "weights")):
+            res.probe("call_with_caller_owned_list_option")
         res.evaluations += 1
         kind = _opkind(op)
         shape.append(kind if ops[i]["op"] != "repeat" else "repeat")
@@ -707,7 +888,7 @@ def execute(plan, seed=0):
             else:
                 verdict = "differs"
                 res.violate("differs-from-fresh", step=i, op=op, in_history=_short(mine), fresh=_short(fresh),
-                            previous=[_opkind(ops[x] if ops[x]["op"] == "edit" else _resolve(plan, x)) for x in range(max(0, i - 3), i)])
+                            previous=[_opkind(ops[x] if ops[x]["op"] in ("edit", "scribble") else _resolve(plan, x)) for x in range(max(0, i - 3), i)])
         elif op.get("algo") == "ilp" and "value" in rec["outcome"] and rec["outcome"]["value"] != ref["outcome"].get("value"):
             res.note("solver_alternative_optimum")
         # oracle 3: repeat equals the original
@@ -721,9 +902,9 @@ def execute(plan, seed=0):
             elif first is not None and _comparable(op, first["outcome"]) != mine:
                 res.violate("repeat-differs", step=i, of=j, op=op, first=_short(_comparable(op, first["outcome"])), again=_short(mine))
         # probes
-        if prev_kind not in (None, "edit") and prev_failed and "exception" not in rec["outcome"] and prev_algo == op.get("algo") and prev_pool == op["pool"]:
+        if prev_kind not in (None, "edit", "scribble") and prev_failed and "exception" not in rec["outcome"] and prev_algo == op.get("algo") and prev_pool == op["pool"]:
             res.probe("failed_call_then_same_algorithm_succeeds_on_same_container")
-        if prev_kind not in (None, "edit") and prev_form == "dict" and _form(plan, op["pool"]) == "dict" and prev_pool != op["pool"] and _names(plan, prev_pool) == _names(plan, op["pool"]):
+        if prev_kind not in (None, "edit", "scribble") and prev_form == "dict" and _form(plan, op["pool"]) == "dict" and prev_pool != op["pool"] and _names(plan, prev_pool) == _names(plan, op["pool"]):
             res.probe("two_dicts_with_identical_keys_back_to_back")
         tr.add("op", i=i, op=ops[i], outcome=rec["outcome"], verdict=verdict, valueof_calls=rec["valueof_calls"], clock_reads=rec["clock_reads"])
         res.sim_seconds += rec["clock_reads"]
@@ -773,7 +954,7 @@ def shrink_candidates(plan, clause):
             new.append(op)
         out = []
         for op in new:
-            if op["op"] == "repeat":
+            if op["op"] in ("repeat", "scribble"):
                 if op["of"] not in remap:
                     return None
                 op = dict(op, of=remap[op["of"]])
@@ -809,6 +990,10 @@ def shrink_candidates(plan, clause):
             p = dict(plan)
             p["ops"] = ops[:i] + [dict(op, fault=None)] + ops[i + 1:]
             yield p
+        if op.get("direct"):
+            p = dict(plan)
+            p["ops"] = ops[:i] + [{k_: v_ for k_, v_ in dict(op, out="Partition").items() if k_ != "direct"}] + ops[i + 1:]
+            yield p
         if op.get("out") not in ("Partition", "contents", "sums"):
             p = dict(plan)
             p["ops"] = ops[:i] + [dict(op, out="Partition")] + ops[i + 1:]
@@ -821,7 +1006,7 @@ def shrink_candidates(plan, clause):
                 p["ops"] = ops[:i] + [dict(op, kwargs=kw)] + ops[i + 1:]
                 yield p
     # drop unused containers; shrink containers
-    used = {(ops[i] if ops[i]["op"] == "edit" else _resolve(plan, i))["pool"] for i in range(n)}
+    used = {(ops[i] if ops[i]["op"] == "edit" else _resolve(plan, i))["pool"] for i in range(n) if ops[i]["op"] != "scribble"}
     if any(c["id"] not in used for c in plan["pool"]):
         p = dict(plan)
         p["pool"] = [c for c in plan["pool"] if c["id"] in used]
